@@ -1,2 +1,472 @@
+"""Numerically integrated panel kernels (fkL_num, fkG_num, calc_fint):
+extraction, quadrature frame, accumulators, and the oracles shared by C03
+(R03.2), C08 and C14 (R14.4)."""
+import ast
+import re
+from fractions import Fraction as Fr
+
+from . import pyxast, spec, panelk
+from .kernel import MatrixKernel, VectorKernel, Factor, Issue
+from .poly import P, nfs
+from .spec import S, C
+from .report import repo_path, REPO, AnalysisError
+
+STRAINS = ('E0', 'E1', 'E2', 'E3', 'E4', 'E5')
+
+
+class NumModel:
+    """the three numeric kernels of one model, with canonical accumulator names"""
+
+    def __init__(self, chk, model):
+        self.model = model
+        self.rel = panelk.NUM_MODELS[model]
+        u = pyxast.parse(repo_path(self.rel), REPO)
+        self.unit = u
+        for f in ('fkL_num', 'fkG_num', 'calc_fint'):
+            chk.need(u.func(f) is not None, 'anchor vanished: %s in %s' % (f, self.rel))
+        try:
+            self.kL = self._load_matrix(u, 'fkL_num')
+            self.kG = self._load_matrix(u, 'fkG_num')
+            fn = u.func('calc_fint')
+            rets = [n for n in ast.walk(fn) if isinstance(n, ast.Return) and isinstance(n.value, ast.Name)]
+            chk.need(len(rets) == 1, 'calc_fint: expected `return <vector>`')
+            self.fint = VectorKernel(u, 'calc_fint', rets[0].value.id, state_arrays=(fn.args.args[0].arg,))
+        except KeyError as e:
+            raise AnalysisError(str(e))
+        self.geo = spec.Geo(r=S('r')) if model == 'cpanel' else spec.Geo()
+
+    @staticmethod
+    def _load_matrix(u, fname):
+        fn = u.func(fname)
+        return MatrixKernel(u, fname, state_arrays=(fn.args.args[0].arg,))
+
+    def kernels(self):
+        return (('fkL_num', self.kL), ('fkG_num', self.kG), ('calc_fint', self.fint))
+
+
+# --------------------------------------------------------------------------
+# quadrature frame
+
+
+def quad_frame(chk, rule, nm, fname, k):
+    """points and weights come from leggauss_quad(n, &pts[0], &wts[0]); the point
+    loops run over range(n); weight = wts_x[ptx]*wts_y[pty].  -> (at_xi, at_eta, W)"""
+    rel = nm.rel
+    w = k.w
+    quads = [(c, loops) for name, c, loops in w.calls if name == 'leggauss_quad']
+    ok = len(quads) == 2 and all(len(c.args) == 3 for c, l in quads)
+    chk.ob(rule, ok, rel, fname, 'two leggauss_quad calls', got=[ast.unparse(c) for c, l in quads])
+    if not ok:
+        return None
+    arrs = []
+    for c, loops in quads:
+        n = ast.unparse(c.args[0])
+        m1 = re.match(r'^ADDR\((\w+)\[0\]\)$', ast.unparse(c.args[1]).replace(' ', ''))
+        m2 = re.match(r'^ADDR\((\w+)\[0\]\)$', ast.unparse(c.args[2]).replace(' ', ''))
+        if not (m1 and m2) or loops:
+            chk.ob(rule, False, rel, fname, 'leggauss_quad arguments', line=c.lineno, got=ast.unparse(c),
+                   expected='leggauss_quad(n, &points[0], &weights[0]) outside the loops')
+            return None
+        arrs.append((n, m1.group(1), m2.group(1)))
+    # the at-strings of the point atoms
+    ats = {'x': set(), 'y': set()}
+    for a, info in w.atoms.reg.items():
+        if info[0] == 'P':
+            ats[info[1]].add(info[3])
+    if len(ats['x']) != 1 or len(ats['y']) != 1:
+        chk.ob(rule, False, rel, fname, 'one evaluation point per direction', got={k_: sorted(v) for k_, v in ats.items()})
+        return None
+    at_x, at_y = ats['x'].pop(), ats['y'].pop()
+    res = {}
+    for d, at in (('x', at_x), ('y', at_y)):
+        m = re.match(r'^(\w+)\[(L\d+)\]$', at)
+        hit = [a for a in arrs if m and a[1] == m.group(1)]
+        ok = bool(m) and len(hit) == 1
+        lp = next((l for l in w.all_loops if m and l.tok == m.group(2)), None)
+        ok = ok and lp is not None and lp.kind == 'range' and lp.bound is not None and nfs(lp.bound) == hit[0][0]
+        chk.ob(rule, ok, rel, fname, 'Gauss points %s' % d, expected='functions evaluated at points[pt], pt in range(n), points from leggauss_quad(n, ...)',
+               got='%s, loop bound %s' % (at, nfs(lp.bound) if lp is not None and lp.bound is not None else None),
+               sample='%s: %s-functions at %s, n=%s' % (fname, d, at, hit[0][0] if hit else '?'))
+        if not ok:
+            return None
+        res[d] = (hit[0][2], m.group(2))
+    W = S('%s[%s]' % res['x']) * S('%s[%s]' % res['y'])
+    return at_x, at_y, W
+
+
+# --------------------------------------------------------------------------
+# accumulators
+
+
+def lin_spec(nm, at_x, at_y, atoms, role='S'):
+    """linear forms of the six strain rows and the two slopes: name -> {dof: P}"""
+    g = nm.geo
+    rows = spec.strain_rows(nm.model, g)
+    out = {}
+
+    def phi(f, dx, dy, r=role):
+        return S(atoms.point('x', Factor(r, '', f, dx), at_x)) * S(atoms.point('y', Factor(r, '', f, dy), at_y))
+    for p, row in enumerate(rows):
+        d = {}
+        for (c, f, dx, dy) in row:
+            d[spec.DOF3[f]] = d.get(spec.DOF3[f], P()) + c * phi(f, dx, dy)
+        out['E%d' % p] = d
+    out['WX'] = {2: phi('w', 1, 0)}
+    out['WE'] = {2: phi('w', 0, 1)}
+    return out
+
+
+def canon_accumulators(chk, rule, nm, fname, k, at_x, at_y, expect):
+    """match the extracted linear forms against the strain table; returns the
+    rename map '@local' -> '@E0'... ; every expected accumulator must be found"""
+    w = k.w
+    sp = lin_spec(nm, at_x, at_y, w.atoms)
+    mp = {}
+    found = {}
+    for name, lin in w.lin.items():
+        hit = None
+        for cname, d in sp.items():
+            if set(d) == set(lin) and all(lin[q].close(d[q]) for q in d):
+                hit = cname
+        line = w.lin_lines.get(name, 0)
+        if hit is None:
+            chk.ob(rule, False, nm.rel, fname, 'accumulator ' + name, line=line,
+                   expected='one of the strain-table linear forms over the amplitude vector',
+                   got={q: repr(v) for q, v in lin.items()},
+                   detail='accumulated quantity %s is not a row of the Donnell strain table (nor a slope of w)' % name)
+            continue
+        found[hit] = name
+        mp['@' + name] = '@' + hit
+        chk.ob(rule, True, nm.rel, fname, 'accumulator %s' % hit, line=line,
+               sample='%s: %s = sum_S c_S * %s' % (fname, name, {q: repr(v) for q, v in lin.items()}))
+        # the amplitude index map: col0 + num*(j*m + i)
+        for fdef, mapping, ln in w.lin_maps.get(name, []):
+            toks = sorted(w.loop_tokens(fdef))
+            xs = [t for t in toks if panelk._bound_atom(w, t) == 'm']
+            ys = [t for t in toks if panelk._bound_atom(w, t) == 'n']
+            okm = len(xs) == 1 and len(ys) == 1 and fdef.d == P.const(1) and \
+                fdef.n == S('col0') + C(3) * (S(ys[0]) * S('m') + S(xs[0]))
+            if not okm:
+                chk.ob(rule, False, nm.rel, fname, 'amplitude index map of ' + name, line=ln,
+                       expected='col0 + num*(j*m + i)', got=repr(fdef))
+    for cname in expect:
+        if cname not in found:
+            chk.ob(rule, False, nm.rel, fname, 'accumulator %s' % cname, expected='present', got='missing',
+                   detail='no accumulated quantity equals strain-table row %s' % cname)
+    return mp, sp
+
+
+def canon(p, mp):
+    return panelk.canon_F(p).rename(lambda a: mp.get(a, a))
+
+
+# --------------------------------------------------------------------------
+# oracles
+
+
+def strain_totals(nm):
+    g = nm.geo
+    E = [S('@E%d' % p) for p in range(6)]
+    half = C(Fr(1, 2))
+    E[0] = E[0] + half * g.dx * g.dx * S('@WX') * S('@WX')
+    E[1] = E[1] + half * g.dy * g.dy * S('@WE') * S('@WE')
+    E[2] = E[2] + g.dx * g.dy * S('@WX') * S('@WE')
+    return E
+
+
+def deps(nm, sp_role, role_lin, P_):
+    """d eps_p / d c_{R,P} for p = 0..5 (list of P), given lin_spec for role R"""
+    g = nm.geo
+    out = []
+    for p in range(6):
+        v = role_lin['E%d' % p].get(P_, P())
+        if P_ == 2:
+            phix = role_lin['WX'][2]
+            phiy = role_lin['WE'][2]
+            if p == 0:
+                v = v + g.dx * g.dx * S('@WX') * phix
+            elif p == 1:
+                v = v + g.dy * g.dy * S('@WE') * phiy
+            elif p == 2:
+                v = v + g.dx * g.dy * (S('@WX') * phiy + S('@WE') * phix)
+        out.append(v)
+    return out
+
+
+def d2eps(nm, linA, linB):
+    g = nm.geo
+    ax, ay = linA['WX'][2], linA['WE'][2]
+    bx, by = linB['WX'][2], linB['WE'][2]
+    return [g.dx * g.dx * ax * bx, g.dy * g.dy * ay * by, g.dx * g.dy * (ax * by + ay * bx)]
+
+
+def oracles(nm, at_x, at_y, W, atoms):
+    """-> dict with fint[P], kL[(P,Q)], kG[(P,Q)] built from the strain table"""
+    g = nm.geo
+    J = g.a * g.b / C(4)
+    eps = strain_totals(nm)
+    sig = [sum((spec.F_sym(p, q) * eps[q] for q in range(6)), P()) for p in range(6)]
+    linA = lin_spec(nm, at_x, at_y, atoms, 'A')
+    linB = lin_spec(nm, at_x, at_y, atoms, 'B')
+    fint, kL, kG = {}, {}, {}
+    dA = {P_: deps(nm, None, linA, P_) for P_ in range(3)}
+    dB = {P_: deps(nm, None, linB, P_) for P_ in range(3)}
+    for P_ in range(3):
+        v = P()
+        for p in range(6):
+            v = v + sig[p] * dA[P_][p]
+        fint[P_] = W * J * v
+        for Q in range(3):
+            v = P()
+            for p in range(6):
+                if not dA[P_][p].t:
+                    continue
+                for q in range(6):
+                    if dB[Q][q].t:
+                        v = v + spec.F_sym(p, q) * dA[P_][p] * dB[Q][q]
+            if v.t:
+                kL[(P_, Q)] = W * J * v
+    d2 = d2eps(nm, linA, linB)
+    kG[(2, 2)] = W * J * (sig[0] * d2[0] + sig[1] * d2[1] + sig[2] * d2[2])
+    return {'fint': fint, 'kL': kL, 'kG': kG, 'sig': sig, 'eps': eps, 'J': J}
+
+
+def point_image(p, atoms_from, atoms_to, at_x, at_y, roles=None):
+    """homomorphism integral atom -> product of point atoms at (xi, eta)"""
+    mp = {}
+    for a in p.atoms():
+        info = atoms_from.reg.get(a)
+        if info and info[0] == 'I':
+            at = at_x if info[1] == 'x' else at_y
+            f1, f2 = info[3]
+            if roles:
+                f1 = f1.with_tok(roles.get(f1.tok, f1.tok))
+                f2 = f2.with_tok(roles.get(f2.tok, f2.tok))
+            mp[a] = S(atoms_to.point(info[1], f1, at)) * S(atoms_to.point(info[1], f2, at))
+    return p.subs(mp)
+
+
+# --------------------------------------------------------------------------
+# rule drivers
+
+
+_cache = {}
+
+
+def analysed(chk, model):
+    """load + frame + accumulators once per run and model"""
+    key = (id(chk), model)
+    if key in _cache:
+        return _cache[key]
+    nm = NumModel(chk, model)
+    info = {'nm': nm}
+    for fname, k in nm.kernels():
+        qf = quad_frame(chk, 'R08.1', nm, fname, k)
+        info[fname] = None
+        if qf is None:
+            continue
+        at_x, at_y, W = qf
+        expect = ('WX', 'WE') if fname == 'fkL_num' else STRAINS + ('WX', 'WE')
+        mp, sp = canon_accumulators(chk, 'R08.1', nm, fname, k, at_x, at_y, expect)
+        info[fname] = (at_x, at_y, W, mp, sp)
+        for iss in k.issues:
+            chk.ob('R08.1', False, nm.rel, fname, '%s@%s' % (iss.kind, iss.line), line=iss.line, detail=iss.msg)
+    _cache[key] = info
+    return info
+
+
+def _blocks(k, mp):
+    return {pq: canon(k.block(pq), mp) for pq in k.blocks}
+
+
 def r03_numeric(chk):
-    pass
+    """R03.2: fkG_num"""
+    n = 0
+    for model in panelk.NUM_MODELS:
+        info = analysed(chk, model)
+        nm = info['nm']
+        fr = info['fkG_num']
+        if fr is None:
+            continue
+        at_x, at_y, W, mp, sp = fr
+        k = nm.kG
+        orc = oracles(nm, at_x, at_y, W, k.w.atoms)
+        got = _blocks(k, mp)
+        n += panelk.compare_blocks(chk, 'R03.2', k, nm.rel, got, orc['kG'],
+                                   'weight*(ab/4)*(Nxx w,x w,x + Nxy(...) + Nyy w,y w,y) with N = A eps + B kappa of the state')
+        # image of the analytic kernel under integral -> point atoms with N -> resultants of the state
+        ka = panelk.load_kernel(chk, panelk.MODELS[model], 'fkG0')
+        pr = ka.w.params
+        for pq in ka.blocks:
+            img = point_image(ka.block(pq), ka.w.atoms, k.w.atoms, at_x, at_y)
+            img = img.subs({pr[0]: orc['sig'][0], pr[1]: orc['sig'][1], pr[2]: orc['sig'][2]}) * W
+            chk.ob('R03.2', got.get(pq, P()).close(img), nm.rel, 'fkG_num', 'image of analytic fkG0 (%d,%d)' % pq,
+                   expected='fkG0 integrand with (Nxx,Nyy,Nxy) -> A eps + B kappa', detail='; '.join(got.get(pq, P()).diffterms(img, 3)),
+                   sample='fkG_num == weight * pointwise(fkG0)[N -> F.(eps,kappa)]')
+        copy_loop(chk, 'R03.2', nm, 'fkG_num', k)
+        guards_num(chk, 'R03.2', nm, 'fkG_num', k)
+        slope_guard(chk, 'R03.2', nm, 'fkG_num', k)
+    chk.floor('R03.2 numeric emits', n, 2)
+
+
+def copy_loop(chk, rule, nm, fname, k):
+    """per-point laminate: F[i*6+j] = Fnxny[ptx,pty,i,j] over 6x6 (and the same
+    code path serves the uniform table: F[i*6+j] = Finput[i,j])"""
+    w = k.w
+    copies = [e for e in w.emits if e.array == 'F' or (e.array not in (getattr(k, 'varr', None), getattr(k, 'rarr', None), getattr(k, 'carr', None), getattr(k, 'array', None)) and e.kind == 'set')]
+    seen = []
+    for e in copies:
+        loops = e.loops[-2:]
+        ok = len(loops) == 2 and all(l.bound is not None and nfs(l.bound) == '6' for l in loops)
+        if ok:
+            i, j = loops
+            ok = e.index[0] == nfs(C(6) * S(i.tok) + S(j.tok))
+            src = ast.unparse(e.node.value).replace(' ', '')
+            m = re.match(r'^(\w+)\[(.*)\]$', src)
+            ok = ok and bool(m) and m.group(2).split(',')[-2:] == [i.var, j.var]
+            seen.append(src)
+        chk.ob(rule, ok, nm.rel, fname, 'laminate copy ' + ast.unparse(e.node.value)[:30], line=e.line,
+               expected='F[i*6+j] = table[..., i, j] for i, j in range(6)', got=ast.unparse(e.node),
+               sample='%s: %s' % (fname, ast.unparse(e.node)))
+    per_point = [s for s in seen if s.count(',') == 3]
+    uniform = [s for s in seen if s.count(',') == 1]
+    chk.ob(rule, len(per_point) == 1 and len(uniform) == 1, nm.rel, fname, 'uniform and per-point laminate share the code path',
+           expected='one uniform copy and one per-point copy into the same local F', got=seen)
+    if per_point:
+        m = re.match(r'^(\w+)\[(.*)\]$', per_point[0])
+        idx = m.group(2).split(',')
+        pts = [l.var for l in w.all_loops if l.kind == 'range' and l.bound is not None and nfs(l.bound) in ('nx', 'ny')]
+        chk.ob(rule, idx[:2] == pts[:2], nm.rel, fname, 'per-point laminate indexed by the Gauss point',
+               expected='table[ptx, pty, i, j]', got=per_point[0])
+
+
+def guards_num(chk, rule, nm, fname, k):
+    guards = panelk.guards_of(k)
+    ok = bool(guards) and all(gs == ('skip-if row > col',) for gs in guards)
+    chk.ob(rule, ok, nm.rel, fname, 'upper-triangle guard', got=sorted({g for gs in guards for g in gs}))
+    probs = panelk.index_map_problems(k, 3)
+    for line, base, e, g_ in probs:
+        chk.ob(rule, False, nm.rel, fname, 'index map ' + base, line=line, expected=e, got=g_)
+    # row/column index stores happen at the first Gauss point only, values at all points
+    for pq, es in k.blocks.items():
+        for e in es:
+            r = e.pending.get(k.rarr)
+            okg = r is not None and all(g.replace(' ', '') in ('ifptx==0andpty==0',) for g in r.guards if g.startswith('if '))
+            chk.ob(rule, okg, nm.rel, fname, 'index store guard (%d,%d)' % pq, line=e.line,
+                   expected='row/col stored once (first point) or at every point', got=list(r.guards) if r is not None else None)
+
+
+def slope_guard(chk, rule, nm, fname, k):
+    """NLgeom == 0 => wxi = weta = 0 : the slope accumulation is the only thing
+    under `if NLgeom == 1` and the slopes start from zero"""
+    w = k.w
+    for name in ('WX', 'WE'):
+        pass
+    for name, recs in w.accum.items():
+        if name not in w.lin:
+            continue
+        for kind, v, loops, line, frame, guards in recs:
+            if any(a in w.state_reg for a in v.atoms()):
+                g = [x for x in guards if 'NLgeom' in x]
+                is_slope = set(w.lin[name]) == {2} and len(w.lin[name][2].t) == 1 and \
+                    not any(a in ('a', 'b', 'r') for a in w.lin[name][2].atoms())
+                if is_slope:
+                    chk.ob(rule, g == ['if NLgeom == 1'], nm.rel, fname, 'slope %s only when NLgeom' % name, line=line,
+                           expected='accumulated under `if NLgeom == 1` (zero otherwise)', got=list(guards),
+                           sample='%s: %s accumulated under if NLgeom == 1' % (fname, name))
+                else:
+                    chk.ob(rule, not g, nm.rel, fname, 'strain %s unconditional' % name, line=line, got=list(guards))
+
+
+def run_c08(chk):
+    nblocks = 0
+    for model in panelk.NUM_MODELS:
+        info = analysed(chk, model)
+        nm = info['nm']
+        if not all(info.get(f) for f in ('fkL_num', 'fkG_num', 'calc_fint')):
+            continue
+        at_x, at_y, W, mpL, _ = info['fkL_num']
+        _, _, WG, mpG, _ = info['fkG_num']
+        fx, fy, WF, mpF, spF = info['calc_fint']
+        chk.ob('R08.1', (at_x, at_y, W) == (fx, fy, WF) == info['fkG_num'][:3], nm.rel, 'fkL_num/fkG_num/calc_fint', 'same quadrature frame',
+               got=[str(info[f][:3]) for f in ('fkL_num', 'fkG_num', 'calc_fint')])
+        orc = oracles(nm, at_x, at_y, W, nm.kL.w.atoms)
+        gotL = _blocks(nm.kL, mpL)
+        gotG = _blocks(nm.kG, mpG)
+        gotF = {d: canon(nm.fint.entry(d), mpF) for d in nm.fint.entries}
+        # R08.3 fint = weight*J*sum sigma_i d eps_i/dc
+        for d in sorted(set(gotF) | set(orc['fint'])):
+            g, x = gotF.get(d, P()), orc['fint'].get(d, P())
+            chk.ob('R08.3', g.close(x), nm.rel, 'calc_fint', 'entry %d' % d, line=nm.fint.entries[d][0].line if d in nm.fint.entries else 0,
+                   expected='weight*(ab/4)*sum_i sigma_i d eps_i/dc', got=repr(g), detail='; '.join(g.diffterms(x, 3)),
+                   sample='calc_fint[%d] == %r' % (d, x) if d == 0 else None)
+            nblocks += 1
+        chk.ob('R08.3', nm.fint.other_arrays <= {'F'}, nm.rel, 'calc_fint', 'no other array written', got=sorted(nm.fint.other_arrays))
+        for d, es in nm.fint.entries.items():
+            chk.ob('R08.3', len(es) == 1 and es[0].kind == 'aug', nm.rel, 'calc_fint', 'single accumulation %d' % d, line=es[0].line)
+        # R08.2 / kL oracle
+        nblocks += panelk.compare_blocks(chk, 'R08.2', nm.kL, nm.rel, gotL, orc['kL'], 'weight*(ab/4)*sum F_pq d eps_p/dc_A d eps_q/dc_B')
+        # R08.4 tangent is the exact Jacobian (artefact vs artefact)
+        linB = {}
+        for cname, d in spF.items():
+            linB[cname] = {q: v.rename(lambda a: nm.fint.w.atoms.retok(a, {'S': 'B'})) for q, v in d.items()}
+        # use the *extracted* linear forms of calc_fint, renamed S -> B
+        ext = {}
+        for name, lin in nm.fint.w.lin.items():
+            cn = mpF.get('@' + name)
+            if cn:
+                ext[cn] = {q: v.rename(lambda a: nm.fint.w.atoms.retok(a, {'S': 'B'})) for q, v in lin.items()}
+        for P_ in range(3):
+            for Q in range(3):
+                jac = P()
+                f = gotF.get(P_, P())
+                for cn, lin in ext.items():
+                    if Q in lin:
+                        jac = jac + f.diff(cn) * lin[Q]
+                code = gotL.get((P_, Q), P()) + gotG.get((P_, Q), P())
+                # the kernels name their point atoms through their own registries: same strings
+                chk.ob('R08.4', code.close(jac), nm.rel, 'fkL_num+fkG_num', 'Jacobian block (%d,%d)' % (P_, Q),
+                       expected='d calc_fint[P] / d c_{B,Q}', detail='; '.join(code.diffterms(jac, 3)),
+                       sample='kL+kG (%d,%d) == d fint/dc, %d monomials' % (P_, Q, len(jac.t)))
+                nblocks += 1
+        # R08.5 fint vanishes at c = 0 and its linear part is k0.c
+        for d, f in gotF.items():
+            degs = f.degree_in(lambda a: a.startswith('@'))
+            chk.ob('R08.5', min(degs) >= 1 if degs else True, nm.rel, 'calc_fint', 'no constant term %d' % d,
+                   expected='every monomial contains an amplitude-dependent factor', got=sorted(degs))
+        k0a = panelk.load_kernel(chk, panelk.MODELS[model], 'fk0')
+        for (P_, Q) in sorted(k0a.blocks):
+            img = W * point_image(panelk.canon_F(k0a.block((P_, Q))), k0a.w.atoms, nm.fint.w.atoms, at_x, at_y)
+            f1 = gotF.get(P_, P()).part(lambda mono: sum(e for s, e in mono if s.startswith('@')) == 1)
+            lin = P()
+            for cn, l in ext.items():
+                if Q in l:
+                    lin = lin + f1.diff(cn) * l[Q]
+            chk.ob('R08.5', lin.close(img), nm.rel, 'calc_fint', 'linear part = k0 (%d,%d)' % (P_, Q),
+                   expected='pointwise image of the analytic fk0 block', detail='; '.join(lin.diffterms(img, 3)))
+        # R08.6 role-swap symmetry of kL and the NLgeom switch
+        for pq in sorted(gotL):
+            sw = panelk.swap_roles(gotL.get((pq[1], pq[0]), P()), nm.kL.w.atoms)
+            chk.ob('R08.6', gotL[pq].close(sw), nm.rel, 'fkL_num', 'role-swap (%d,%d)' % pq, expected='kL_PQ(A,B) == kL_QP(B,A)')
+        slope_guard(chk, 'R08.6', nm, 'fkL_num', nm.kL)
+        guards_num(chk, 'R08.6', nm, 'fkL_num', nm.kL)
+        copy_loop(chk, 'R08.2', nm, 'fkL_num', nm.kL)
+        copy_loop(chk, 'R08.2', nm, 'calc_fint', nm.fint)
+    chk.floor('R08 blocks (fint + kL + Jacobian)', nblocks, 2 * (3 + 9 + 9))
+
+
+def r14_4(chk, rule='R14.4'):
+    """numeric kernels at zero state == pointwise integrand of the analytic kernels"""
+    for model in panelk.NUM_MODELS:
+        info = analysed(chk, model)
+        nm = info['nm']
+        if not info.get('fkL_num'):
+            continue
+        at_x, at_y, W, mpL, _ = info['fkL_num']
+        gotL = _blocks(nm.kL, mpL)
+        k0a = panelk.load_kernel(chk, panelk.MODELS[model], 'fk0')
+        for pq in sorted(set(k0a.blocks) | set(gotL)):
+            img = W * point_image(panelk.canon_F(k0a.block(pq)), k0a.w.atoms, nm.kL.w.atoms, at_x, at_y)
+            z = gotL.get(pq, P()).subs({'@WX': P(), '@WE': P()})
+            chk.ob(rule, z.close(img), nm.rel, 'fkL_num', 'zero-state block (%d,%d) vs analytic fk0' % pq,
+                   detail='; '.join(z.diffterms(img, 3)), sample='fkL_num|c=0 == weight*pointwise(fk0)')
